@@ -373,6 +373,10 @@ def convert(entry, text, tmp):
     from swcgeom.transforms import NeurolucidaAscToSwc
 
     lim = 5000 * len(text) + 10**6
+    if os.environ.get("RV_ASCII_LOCALE") and entry != "from_stream" and not text.isascii():
+        # (this shard runs with an ASCII preferred encoding: the converter opens files with the
+        # preferred encoding, which is the caller's choice -- non-ASCII documents go by stream)
+        entry = "from_stream"
     if entry == "from_stream" and len(text) % 4 == 1:
         def fn():
             st = _BusyStream(text)
@@ -390,11 +394,11 @@ def convert(entry, text, tmp):
             # conversion reads what the file holds now
             from swcgeom.transforms import NeurolucidaAscToSwc as _A
 
-            with open(path, "w") as f:
+            with open(path, "w", encoding="utf-8") as f:
                 f.write("( (Axon) (1 2 3 0.5) (2 2 3 0.5) )\n")
             (_A.convert(path) if entry == "convert" else _A()(path))
             _PATH_REUSE[0] += 1
-        with open(path, "w") as f:
+        with open(path, "w", encoding="utf-8") as f:
             f.write(text)
         sp = (len(text) // 2) % 5
         if sp == 1:
@@ -607,7 +611,7 @@ def check_megabyte(ctx, case, tmp):
                 tree = NeurolucidaAscToSwc.from_stream(io.StringIO(text))
             else:
                 path = os.path.join(tmp, "big.asc")
-                with open(path, "w") as f:
+                with open(path, "w", encoding="utf-8") as f:
                     f.write(text)
                 tree = NeurolucidaAscToSwc.convert(path)
         except Exception as e:
